@@ -42,6 +42,7 @@ class VLoop(asyncio.SelectorEventLoop):
         super().__init__(selector=_NullSelector())
         self._vtime = 1000.0
         self.fd_readers = {}
+        self.dead_registrations = set()
         self.exceptions = []          # contexts passed to the exception handler (unhandled task errors etc.)
         self.set_exception_handler(self._on_exception)
         self.steps = 0
@@ -69,13 +70,26 @@ class VLoop(asyncio.SelectorEventLoop):
 
     # --- fd readers: recorded, never polled ----------------------------------
     def add_reader(self, fd, callback, *args):
+        # As the real selector loop: if the descriptor number is still in the selector's map (it was closed without
+        # remove_reader and the number has been handed out again), only the callback is replaced - the kernel-side
+        # registration died with the old descriptor and is NOT renewed (epoll/poll modify with unchanged events).
+        if fd not in self.fd_readers:
+            self.dead_registrations.discard(fd)
         self.fd_readers[fd] = (callback, args)
 
     def remove_reader(self, fd):
+        self.dead_registrations.discard(fd)
         return self.fd_readers.pop(fd, None) is not None
+
+    def fd_closed(self, fd):
+        """The descriptor was closed by the code under test (the kernel forgets its poll registration)."""
+        if fd in self.fd_readers:
+            self.dead_registrations.add(fd)
 
     def fire_reader(self, fd):
         """The fd became readable: run its callback in the next loop iteration."""
+        if fd in self.dead_registrations:
+            return False
         if fd in self.fd_readers:
             cb, args = self.fd_readers[fd]
             self.call_soon(cb, *args)
